@@ -29,11 +29,15 @@
     headers["_host"]                    always present (metadata)   keyError     (unreachable)
     urlparse / ip_address in ip_version_from_location: inside `suppress(ValueError)`
 
-  The tracker is modelled as far as C02 needs: device keys with their `valid_to`, `next_valid_to`
-  (both decide which keys exist), whether callbacks fire (exactly, or "0 or 1" for ssdp:alive of a
-  known device — C04's business).  Import-free apart from the C01 codec model.
+  The combined listener's state IS the tracker state of the C03/C04 model (`C03.Tracker String`)
+  and its step IS `C03.Parse.parseEv` + `C03.step` on the header map the C01 decoder produces
+  (`pairsOf`); nothing of the tracker is duplicated here.  What C02 adds in front of it are the
+  raising primitives of `extract_uncache_after` / `extract_valid_to` (`validTo`), reached exactly when
+  `_see_device` gets past its USN check, and their saturation.  Import-free apart from the C01
+  codec model and the C03 tracker model.
 -/
 import Upnp.Model.C01Ssdp
+import Upnp.Model.C03Parse
 namespace Upnp.C02
 open Upnp Upnp.C01 PyDict
 
@@ -113,9 +117,10 @@ def usnUdn (h : Hdrs) : Option Bytes :=
 
 structure Eff where
   cbMin : Nat := 0     -- user callbacks fired: at least …
-  cbMax : Nat := 0     -- … at most (equal unless C04 logic decides)
+  cbMax : Nat := 0     -- … at most (always equal now that the tracker is C03's)
   sends : Nat := 0     -- datagrams sent
   timers : Nat := 0    -- timers scheduled
+  notif : Option (String × String × C03.Source) := none   -- combined listener: callback(device udn, type, source)
 deriving DecidableEq, Repr
 
 def noEff : Eff := {}
@@ -147,27 +152,11 @@ def searchClassify (targetHost : Bytes) (h : Hdrs) : Except Exn Bool :=
     | none => .error .keyError
     | some v => .ok (v == .str targetHost)
 
-/-! ### the device tracker (keys, valid_to, next_valid_to) -/
-
-structure Tracker where
-  devices : PyDict Bytes Int := []     -- udn ↦ valid_to (µs on the virtual clock)
-  next : Option Int := none            -- next_valid_to
-deriving DecidableEq, Repr
+/-! ### the raising primitives in front of the device tracker -/
 
 /-- `datetime.max` and `timedelta.max` in µs (relative to the harness' epoch 2024-01-01) -/
 def dtMax : Int := 251698233599999999
 def tdMax : Nat := 86399999999999999999
-
-def badNeedles : List Bytes := [ofString "://127.0.0.1", ofString "://[::1]", ofString "://169.254"]
-
-def locationOk (h : Hdrs) : Bool :=
-  let l := strOf (getL h "location")
-  truthy (getL h "location") && startsWith l (ofString "http") && !(badNeedles.any fun n => isInfix n l)
-
-def validSearch (h : Hdrs) : Bool := truthy (getL h "_udn") && truthy (getL h "st") && locationOk h
-def validAdv (h : Hdrs) : Bool :=
-  truthy (getL h "_udn") && truthy (getL h "nt") && truthy (getL h "nts") && locationOk h
-def validByebye (h : Hdrs) : Bool := truthy (getL h "_udn") && truthy (getL h "nt") && truthy (getL h "nts")
 
 /-- regex `\s` on ASCII text -/
 def isReWs (b : Nat) : Bool := b == 32 || (9 ≤ b && b ≤ 13) || (28 ≤ b && b ≤ 31)
@@ -200,71 +189,73 @@ def maxAgeUs (fx : Fixes) (cc : Bytes) : Except Exn Nat :=
       if us > tdMax then (if fx.tdGuard then .ok tdMax else .error .timedeltaOverflow)
       else .ok us
 
-/-- `extract_valid_to` -/
-def validTo (fx : Fixes) (h : Hdrs) (now : Int) : Except Exn Int :=
-  match maxAgeUs fx (strOf (getL h "cache-control")) with
+/-- `extract_valid_to` for a cache-control text -/
+def validToCc (fx : Fixes) (cc : Bytes) (now : Int) : Except Exn Int :=
+  match maxAgeUs fx cc with
   | .error e => .error e
   | .ok us =>
     if now + us > dtMax then (if fx.dtGuard then .ok dtMax else .error .datetimeOverflow)
     else .ok (now + us)
 
-/-- `purge_devices(now)` -/
-def purgeLoop (now : Int) : PyDict Bytes Int → Option Int → PyDict Bytes Int × Option Int
-  | [], nx => ([], nx)
-  | (u, vt) :: r, nx =>
-    if now > vt then purgeLoop now r nx
-    else
-      let nx' := match nx with
-        | none => some vt
-        | some n => if vt < n then some vt else some n
-      let (r', nx'') := purgeLoop now r nx'
-      ((u, vt) :: r', nx'')
+def validTo (fx : Fixes) (h : Hdrs) (now : Int) : Except Exn Int := validToCc fx (strOf (getL h "cache-control")) now
 
-def purge (t : Tracker) (now : Int) : Tracker :=
-  match t.next with
-  | some n => if n > now then t else let (d, nx) := purgeLoop now t.devices none; ⟨d, nx⟩
-  | none => let (d, nx) := purgeLoop now t.devices none; ⟨d, nx⟩
+/-! ### the combined listener: C03's tracker on the C01 decoder's header map -/
 
-def nowOf (h : Hdrs) : Int := match getL h "_timestamp" with | some (.ts t) => t | _ => 0
+abbrev Tracker := C03.Tracker String
 
-/-- `_see_device`: `none` = "broken device", ignored -/
-def seeDevice (fx : Fixes) (t : Tracker) (h : Hdrs) : Except Exn (Tracker × Option Bytes) :=
-  let now := nowOf h
-  let t1 := if fx.checkBeforePurge then t else purge t now
-  match usnUdn h with
-  | none => .ok (t1, none)
-  | some udn =>
-    let t2 := if fx.checkBeforePurge then purge t now else t1
-    match validTo fx h now with
-    | .error e => .error e
-    | .ok vt =>
-      let nx := match t2.next with
-        | none => some vt
-        | some n => if n > vt then some vt else some n
-      .ok (⟨PyDict.set t2.devices udn vt, nx⟩, some udn)
+/-- text as the String-based tracker model reads it: one character per byte (Latin-1), which keeps
+    equality, ASCII lower-casing, prefixes and infixes exactly as they are on the bytes -/
+def strOfBytes (b : Bytes) : String := String.ofList (b.map Char.ofNat)
 
-def seeSearch (fx : Fixes) (t : Tracker) (h : Hdrs) : Except Exn (Tracker × Eff) :=
-  if !validSearch h then .ok (t, noEff)
-  else match seeDevice fx t h with
-    | .error e => .error e
-    | .ok (t', none) => .ok (t', noEff)
-    | .ok (t', some _) => .ok (t', oneCb)
+def addrStr (a : Addr) : String :=
+  if a.v6 then s!"({strOfBytes a.host}, {a.port}, {a.flow}, {a.scope})" else s!"({strOfBytes a.host}, {a.port})"
 
-def seeAdvertisement (fx : Fixes) (t : Tracker) (h : Hdrs) (isUpdate : Bool) : Except Exn (Tracker × Eff) :=
-  if !validAdv h then .ok (t, noEff)
-  else
-    let isNew := !(PyDict.contains t.devices (strOf (getL h "_udn")))
-    match seeDevice fx t h with
-    | .error e => .error e
-    | .ok (t', none) => .ok (t', noEff)
-    | .ok (t', some _) => .ok (t', { cbMin := if isUpdate || isNew then 1 else 0, cbMax := 1 })
+/-- header values as text (`_timestamp` as the decimal µs the tracker model parses; the other metadata
+    values are never compared by the tracker: names starting with `_` are skipped) -/
+def valStr : Val → String
+  | .str b => strOfBytes b
+  | .addr a => addrStr a
+  | .pyNone => "None"
+  | .int n => toString n
+  | .ts t => toString t
+  | .unk => "?"
 
-def unsee (t : Tracker) (h : Hdrs) : Tracker × Eff :=
-  if !validByebye h then (t, noEff)
-  else match usnUdn h with
-    | none => (t, noEff)
-    | some udn =>
-      if PyDict.contains t.devices udn then (⟨PyDict.erase t.devices udn, t.next⟩, oneCb) else (t, noEff)
+/-- the items of the decoded header map, in order, as the tracker model takes them -/
+def pairsOf (h : Hdrs) : List (String × String) := h.data.map fun p => (strOfBytes p.1, valStr p.2)
+
+/-- `ip_version_from_location` as the tracker model has it, with one correction found by this
+    composition: `urlparse` raises ValueError (suppressed → `None`) when the network location has
+    an opening bracket without a closing one or vice versa, e.g. `http://[fe80::1/`; the C03 model
+    read the text after `[` as an IPv6 literal.  (`C03.step` takes the function as a parameter.) -/
+def ipv (loc : String) : Option Nat :=
+  match C03.Parse.afterScheme loc.toList with
+  | none => none
+  | some r =>
+    let netloc := r.takeWhile fun c => !(c == '/' || c == '?' || c == '#')
+    if netloc.contains '[' != netloc.contains ']' then none else C03.Parse.ipVersion loc
+
+/-- `extract_valid_to` runs: the message passed its validity test and `_see_device` found a uuid USN -/
+def reachesValidTo (m : C03.Msg String) : Bool :=
+  m.kind != .byebye && (if m.kind == .search then m.validSearch else m.validAdv) && m.udn.isSome
+
+/-- `_on_data` of the listener's advertisement (`sockA`) / search socket, then the tracker.
+    `extract_valid_to` — the only raising code behind the listener — runs exactly when the message
+    passed its validity test and `_see_device` found a uuid USN; only its RAISING is modelled here
+    (switches F02f–h): the saturating value itself is the tracker model's (`C03.Parse.effMaxAge`). -/
+def listenerStep (fx : Fixes) (trk : C03.Cfg) (sockA : Bool) (t : Tracker) (h : Hdrs) :
+    Except Exn (Tracker × Option (C03.Notif String)) :=
+  let ev := C03.Parse.parseEv trk sockA (pairsOf h)
+  let raised : Option Exn := match ev with
+    | .msg m => if reachesValidTo m then (match validTo fx h m.ts with | .error e => some e | .ok _ => none) else none
+    | _ => none
+  match raised with
+  | some e => .error e
+  | none => .ok (C03.step ipv (C03.Parse.skipHdr trk) t ev)
+
+def effOfNotif (n : Option (C03.Notif String)) : Eff :=
+  match n with
+  | some x => { cbMin := 1, cbMax := 1, notif := some (x.udn, x.ty, x.source) }
+  | none => noEff
 
 /-! ### the search responder -/
 
@@ -293,6 +284,7 @@ def pyInt? (s : Bytes) : Option Int :=
 
 structure Cfg where
   prefixes : List Bytes
+  trk : C03.Cfg                                 -- constants of ssdp_listener.py (C03's table)
   targetHost : Bytes := []                      -- SsdpSearchListener._target_host
   rootUdn : Bytes := []
   devices : List (Bytes × Bytes) := []          -- (udn, device_type) of all_devices
@@ -375,16 +367,17 @@ def onData (fx : Fixes) (cfg : Cfg) (ep : Endpoint) (t : Tracker) (rl : Bytes) (
     | .error e => .error e
     | .ok b => .ok (t, if b then oneCb else noEff)
   | .listenerAdv =>
-    match advClassify h with
-    | none => .ok (t, noEff)
-    | some .alive => seeAdvertisement fx t h false
-    | some .update => seeAdvertisement fx t h true
-    | some .byebye => .ok (unsee t h)
+    match listenerStep fx cfg.trk true t h with
+    | .error e => .error e
+    | .ok (t', n) => .ok (t', effOfNotif n)
   | .listenerSearch =>
     match searchClassify cfg.targetHost h with
     | .error e => .error e
     | .ok false => .ok (t, noEff)
-    | .ok true => seeSearch fx t h
+    | .ok true =>
+      match listenerStep fx cfg.trk false t h with
+      | .error e => .error e
+      | .ok (t', n) => .ok (t', effOfNotif n)
   | .responder =>
     match responder fx cfg rl h with
     | .error e => .error e
